@@ -13,7 +13,7 @@ def load_table():
     if not os.path.exists(p):
         return rows, []
     txt = open(p).read()
-    for m in re.finditer(r"callId := (\d+), check := \.(\w+)([^,]*?), alloc := (\d+)", txt):
+    for m in re.finditer(r"callId := (\d+), check := \.(\w+)(.*?), alloc := (\d+)", txt):
         cid, kind, args, alloc = int(m.group(1)), m.group(2), m.group(3).strip(), int(m.group(4))
         if kind == "exact":
             rows[cid] = ("exact", [int(x) for x in re.findall(r"\d+", args)], alloc)
@@ -23,6 +23,24 @@ def load_table():
         else:
             rows[cid] = (kind, [], alloc)
     disp = [int(x) for x in re.findall(r"\d+", re.search(r"def dispatched : List Nat := \[(.*?)\]", txt).group(1))]
+    return rows, disp
+
+
+def load_table_guided():
+    """generator guidance only: where the translator no longer recognises a size rule (or a call is missing from the
+    regenerated table) the structure of the messages is taken from a snapshot of the table of the pinned tree"""
+    rows, disp = load_table()
+    try:
+        import json
+        ref = json.load(open(os.path.join(os.path.dirname(os.path.abspath(__file__)), "..", "ref", "getdata_rows.json")))
+        for k, v in ref["rows"].items():
+            cur = rows.get(int(k))
+            if (cur is None or cur[0] not in ("exact", "valid")) and v[0] in ("exact", "valid"):
+                rows[int(k)] = (v[0], v[1], v[2])
+        if not disp:
+            disp = ref["disp"]
+    except (OSError, ValueError):
+        pass
     return rows, disp
 
 
@@ -88,20 +106,7 @@ class C03(F.Spec):
         self.rows, self.disp = {}, []
 
     def cases(self, rng, tier):
-        self.rows, self.disp = load_table()
-        # generator guidance only: where the translator no longer recognises a size rule (or a call is missing from the
-        # regenerated table) the structure of the messages is taken from a snapshot of the table of the pinned tree
-        try:
-            import json
-            ref = json.load(open(os.path.join(os.path.dirname(os.path.abspath(__file__)), "..", "ref", "getdata_rows.json")))
-            for k, v in ref["rows"].items():
-                cur = self.rows.get(int(k))
-                if (cur is None or cur[0] not in ("exact", "valid")) and v[0] in ("exact", "valid"):
-                    self.rows[int(k)] = (v[0], v[1], v[2])
-            if not self.disp:
-                self.disp = ref["disp"]
-        except (OSError, ValueError):
-            pass
+        self.rows, self.disp = load_table_guided()
         n = 250 if tier == "quick" else 4000
         # a well-formed authorised recalibrate whose 32-bit channel number is an alias (modulo 256) of a shutter's channel
         # names no channel of the device: nothing may change
